@@ -273,15 +273,30 @@ def main(tier, seed):
                                            "class": "value", "rec": {"kind": "value", "ratio": aulib.pack_str(ratios[ri], "mag"), "R1": r1, "R2": r2,
                                                                      "x": int(r["first"]), "ub": r["ub"]}})
     # --- call-site consequences: unit-only .as(u), mixed ==, +, common_type compile iff the policy permits
+    import math
+
+    def unrepresentable_in_float(mag, rep):
+        """The factor's exact value lies outside the finite positive range of the floating rep (F21's region)."""
+        if rep not in FLTS:
+            return False
+        lg = sum(float(Fraction(e)) * (math.log2(math.pi) if b == "pi" else math.log2(int(b[1:]))) for b, e in mag.items())
+        hi, lo = {"f32": (128, -149), "f64": (1024, -1074), "f80": (16384, -16445)}[rep]
+        return lg >= hi - 1e-9 or lg < lo - 1e-9
     probes = []
     cand = [(ri, r2, r1) for (ri, r2, r1) in keys if is_int(r1) or rng.random() < 0.1]
+    # the factors beyond every floating range are always among the probed ones (known finding F21 lives there)
+    huge = [(ri, r2, r1) for (ri, r2, r1) in keys if unrepresentable_in_float(ratios[ri], "f64")]
+    rng.shuffle(huge)
     rng.shuffle(cand)
-    for (ri, r2, r1) in cand[: (40 if tier == "quick" else 300)]:
+    for (ri, r2, r1) in cand[: (40 if tier == "quick" else 300)] + huge[:6]:
         ms = aulib.pack_str(ratios[ri], "mag")
         # q.as(VBase{}) on Quantity<Scaled<M>, R1>: gate = ImplicitRepPermitted<R1, M>
         a = kv(drv.ask([f"policy {r1} {r1} 1 {ms}"])[0])
+        un1 = unrepresentable_in_float(ratios[ri], r1)
         probes.append(("as", ri, r1, r1, a["core"] == "1",
-                       f"auto r = au::make_quantity<Scaled<M{ri}>>(static_cast<{CT[r1]}>(1)).as(VBase{{}}); (void)r;"))
+                       f"auto r = au::make_quantity<Scaled<M{ri}>>(static_cast<{CT[r1]}>(1)).as(VBase{{}}); (void)r;", un1))
+        probes.append(("in", ri, r1, r1, a["core"] == "1",
+                       f"auto r = au::make_quantity<Scaled<M{ri}>>(static_cast<{CT[r1]}>(1)).in(VBase{{}}); (void)r;", un1))
         # q1 == q2 with common rep C: both operands must convert implicitly to Quantity<CommonUnit, C>
         c = common_rep(r1, r2)
         mags = [ratios[ri], {}]
@@ -289,27 +304,36 @@ def main(tier, seed):
         g = {b: min(Fraction(ratios[ri].get(b, 0)), Fraction(0)) for b in bases}
         g = {b: e for b, e in g.items() if e != 0}
         ok = True
+        un2 = False
         for mm in mags:
             rel = uadd(mm, g, -1)
             a2 = kv(drv.ask([f"policy {c} {c} 1 {aulib.pack_str(rel, 'mag')}"])[0])
             ok = ok and a2["core"] == "1"
-        probes.append(("eq", ri, r2, r1, ok,
-                       f"bool b = (au::make_quantity<Scaled<M{ri}>>(static_cast<{CT[r1]}>(1)) == au::make_quantity<VBase>(static_cast<{CT[r2]}>(1))); (void)b;"))
+            un2 = un2 or unrepresentable_in_float(rel, c)
+        qa = f"au::make_quantity<Scaled<M{ri}>>(static_cast<{CT[r1]}>(1))"
+        qb = f"au::make_quantity<VBase>(static_cast<{CT[r2]}>(1))"
+        probes.append(("eq", ri, r2, r1, ok, f"bool b = ({qa} == {qb}); (void)b;", un2))
+        # the other mixed-unit operations go through the same two implicit conversions; operand order must not matter
+        kind2, code2 = rng.choice([("lt", f"bool b = ({qb} < {qa}); (void)b;"), ("add", f"auto s = {qa} + {qb}; (void)s;"),
+                                   ("sub", f"auto s = {qb} - {qa}; (void)s;"), ("ge", f"bool b = ({qa} >= {qb}); (void)b;"),
+                                   ("ne", f"bool b = ({qb} != {qa}); (void)b;")])
+        probes.append((kind2, ri, r2, r1, ok, code2, un2))
 
     def probe(pr):
-        kind, ri, r2, r1, expect, code = pr
+        kind, ri, r2, r1, expect, code, _un = pr
         p1 = os.path.join(wd, f"probe_{kind}_{ri}_{r2}_{r1}.cc")
         open(p1, "w").write(PRELUDE + f"using M{ri} = decltype({cxx_mag(ratios[ri])});\nint main() {{ {code} return 0; }}\n")
         rc, out = cxx(p1, None, san=False, syntax_only=True)
         return pr, rc, out
     for pr, rc, out in pmap(probe, probes):
-        kind, ri, r2, r1, expect, code = pr
+        kind, ri, r2, r1, expect, code, unrep = pr
         stats["call_site_probes"] += 1
         ms = aulib.pack_str(ratios[ri], "mag")
         if (rc == 0) != expect:
             violations.append({"what": f"call site `{kind}` for ({ms}, {r1}, {r2}) {'compiles' if rc == 0 else 'is rejected'} but the policy "
                                        f"{'refuses' if not expect else 'permits'} it", "class": "callsite-" + kind,
                                "rec": {"kind": "callsite", "site": kind, "ratio": ms, "R1": r1, "R2": r2, "expected_compiles": expect,
+                                       "float_factor_unrepresentable": unrep, "rejected_by_get_value": "outside range of destination type" in out,
                                        "errors": [l for l in out.split("\n") if "error" in l][:2]}})
         elif rc != 0 and not any(s in out for s in ("Dangerous conversion", "static assertion failed", "static_assert failed", "no match", "invalid operands",
                                                     "no type named", "deleted")):
